@@ -102,6 +102,29 @@ def matrix_tables():
                     fr = ("detected by " + " ".join(first)) if first else "**missed by every check** - see the strengthening table"
                 lines.append("| `%s` | %s | %s | %s |" % (d, " ".join(meta.get("breaks", [])), " | ".join(cells), fr))
             lines.append("")
+    # rounds whose changes were run against their target properties (and a few neighbours) rather than against every
+    # check: one row per change, from seeded/*/meta.json (`first_run`, `targeted_runs`)
+    later = []
+    for d in sorted(os.listdir(os.path.join(ROOT, "seeded"))):
+        meta_p = os.path.join(ROOT, "seeded", d, "meta.json")
+        if not os.path.exists(meta_p):
+            continue
+        meta = json.load(open(meta_p))
+        if meta.get("round", 1) >= 3 and d not in m or meta.get("round", 1) >= 5:
+            later.append((d, meta))
+    if later:
+        lines.append("**Rounds 3-6, targeted runs** - each change applied to `/repo` and run against the properties it breaks and "
+                     "their neighbours (`tools/seedtest.py`); `V` / `v` / `.` as above. \"first run\" is the outcome before any "
+                     "strengthening prompted by that round.\n")
+        lines.append("| seeded change | round | breaks | needs in order to manifest | first run | checks now (targeted) |")
+        lines.append("|---|---|---|---|---|---|")
+        for d, meta in later:
+            first = meta.get("first_run_detected_by")
+            fr = "not recorded" if first is None else (("detected by " + " ".join(first)) if first else "**missed by every check run**")
+            tr = meta.get("targeted_runs") or {}
+            now = " ".join("%s:%s" % (k, v) for k, v in sorted(tr.items())) or "-"
+            lines.append("| `%s` | %s | %s | %s | %s | %s |" % (d, meta.get("round"), " ".join(meta.get("breaks", [])), (meta.get("needs_to_manifest") or "see README.md").replace("|", "\\|"), fr, now))
+        lines.append("")
     return "\n".join(lines)
 
 
